@@ -70,6 +70,9 @@ func genC20(r *Rand, tier string, i int) *h.Scenario {
 			case h.DecPercentage:
 				d.Fmt = []string{"", "%d", "% d", "%.1f", "% .2f", "%f", "%e", "%g"}[r.Intn(8)]
 			}
+			if d.Kind == h.DecEwmaETA && bs.Total <= 1000 && r.Bool(0.4) {
+				d.Age = 1 // median window instead of the recording average
+			}
 			// wrappers must not hide samples
 			if (d.Kind == h.DecEwmaSpeed || d.Kind == h.DecEwmaETA) && r.Bool(0.5) {
 				for w, m := 0, r.Range(1, 3); w < m; w++ {
@@ -236,6 +239,59 @@ func judgeC20(hi *Hist) []*Violation {
 		}
 		return &l[k.ord]
 	}
+	// per bar: the values the reference fold adds to a moving average, with the log position at which
+	// the operation that carried the sample was accepted by the bar (its return)
+	type addAt struct {
+		v       float64
+		inv, at int
+	}
+	foldOf := map[int][]addAt{}
+	for b := range hi.Sc.Bars {
+		if hi.Added[b] == nil {
+			continue
+		}
+		m := NewRefBar(hi.Sc.Bars[b].Total)
+		var carry int64
+		for _, op := range hi.Ops {
+			if op.Op.Bar != b || !IsMutator(op.Op.K) || op.Ret < 0 || m.Terminal() {
+				continue
+			}
+			n, has := int64(0), false
+			switch op.Op.K {
+			case h.OpEwmaIncr:
+				n, has = op.Op.N, true
+			case h.OpEwmaIncrBy:
+				n, has = int64(int(op.Op.N)), true
+			case h.OpEwmaIncrement:
+				n, has = 1, true
+			case h.OpEwmaSetCurrent:
+				if op.Op.N >= 0 {
+					n, has = op.Op.N-m.Current, true
+				}
+			}
+			if has {
+				if n <= 0 {
+					carry += op.Op.D
+				} else {
+					foldOf[b] = append(foldOf[b], addAt{float64(carry+op.Op.D) / float64(n), op.Inv, op.Ret})
+					carry = 0
+				}
+			}
+			m.Apply(op.Op)
+		}
+	}
+	spyAt := func(fi int, bar int) int {
+		from := 0
+		if fi > 0 {
+			from = frames[fi-1].W.At
+		}
+		for i := frames[fi].W.At - 1; i > from; i-- {
+			if e := &hi.Log[i]; e.Kind == h.EvSpy && e.ID == bar {
+				return i
+			}
+		}
+		return -1
+	}
 	frozen := map[dk]string{}
 	for fi, f := range frames {
 		for _, g := range f.Groups {
@@ -328,6 +384,45 @@ func judgeC20(hi *Hist) []*Violation {
 					if !okETA {
 						add("eta-value", "frame %d: bar %d shows average ETA %q; (total-current) x round(elapsed/current) with current %d total %d elapsed %v does not print like that (style %d)", fi, g.Bar, txt, spy.Current, spy.Total, elapsedLo, spec.Style%4)
 					}
+				case h.DecEwmaETA:
+					if spec.Age != 1 || spy.Total > 1000 || spy.Total < spy.Current {
+						break
+					}
+					// median of the last three values added before this render (a zeroed window of three)
+					at := spyAt(fi, g.Bar)
+					if at < 0 {
+						break
+					}
+					// an operation whose call returned before the render was accepted before it; one still in
+					// flight (invoked, not yet returned) may or may not have been accepted yet
+					okText, tried := false, []string{}
+					for _, inflight := range []bool{false, true} {
+						win := [3]float64{}
+						for _, a := range foldOf[g.Bar] {
+							if a.at < at || (inflight && a.inv < at) {
+								win[0], win[1], win[2] = win[1], win[2], a.v
+							}
+						}
+						x := win
+						if x[0] > x[1] {
+							x[0], x[1] = x[1], x[0]
+						}
+						if x[1] > x[2] {
+							x[1], x[2] = x[2], x[1]
+						}
+						if x[0] > x[1] {
+							x[0], x[1] = x[1], x[0]
+						}
+						rem := time.Duration((spy.Total - spy.Current) * int64(math.Round(x[1])))
+						tried = append(tried, timeText(spec.Style, rem))
+						if txt == timeText(spec.Style, rem) {
+							okText = true
+						}
+					}
+					note("c20_median_eta_checked")
+					if !okText {
+						add("median-eta", "frame %d: bar %d shows moving-average ETA %q; (total-current) x median of the last three samples prints %v (style %d)", fi, g.Bar, txt, tried, spec.Style%4)
+					}
 				case h.DecPercentage:
 					if spy.Total <= 0 || spy.Current < 0 || spy.Current > spy.Total {
 						break
@@ -403,6 +498,9 @@ func judgeC20(hi *Hist) []*Violation {
 			for ord, d := range list {
 				if d.Kind != h.DecEwmaSpeed && d.Kind != h.DecEwmaETA {
 					continue
+				}
+				if d.Kind == h.DecEwmaETA && d.Age == 1 {
+					continue // the library's own median window: checked through the printed ETA
 				}
 				var got []float64
 				for i := range hi.Log {
